@@ -618,7 +618,8 @@ func c10JudgeC(kind string, list []int) (clause, detail string) {
 	if kind == "carddav" {
 		ext, ns, rootName = ".vcf", nsCard, "addressbook-multiget"
 	}
-	paths := map[string]string{"ok1": "/u/c/k1/one" + ext, "ok2": "/u/c/k1/two x" + ext, "missing": "/u/c/k1/missing" + ext, "forbidden": "/u/c/k1/forbidden" + ext, "error": "/u/c/k1/error" + ext,
+	paths := map[string]string{"ok1": "/u/c/k1/one" + ext, "ok2": "/u/c/k1/two x" + ext, // failing members carry names that need escaping in an href (the error response is written by its own constructor)
+		"missing": "/u/c/k1/mis%20sing?x" + ext, "forbidden": "/u/c/k1/for#bid den" + ext, "error": "/u/c/k1/err%41or é" + ext,
 		"wrapped-locked": "/u/c/k1/wl" + ext, "wrapped-missing": "/u/c/k1/wm" + ext, "unassigned-code": "/u/c/k1/uc" + ext}
 	// a backend may wrap its HTTP error (fmt.Errorf("...: %w", err)); the status is still the backend's own
 	errs := map[string]error{paths["forbidden"]: webdav.NewHTTPError(403, fmt.Errorf("no")), paths["error"]: fmt.Errorf("backend exploded"),
